@@ -910,7 +910,7 @@ func TestVF_C44(t *testing.T) {
 		"range query of 15 steps through the real PromQLShardingMiddleware; next = Prometheus PromQL engine over in-memory storage filtered by the real ShardInfo matcher of each shard request; merge by the real codec; " +
 		"oracle: (1) every series matched by exactly one shard and series agreeing on the sharding labels share a shard, (2) merged result == unsharded evaluation (series set, timestamps, values within 1e-9 relative, NaN==NaN); " +
 		"programs the engine rejects or the analyzer declines to shard are counted, not cases; distinct = (program, series set hash, shards); non-trivial = the middleware sharded the query and the unsharded result has >= 1 series")
-	n := r.N(1100, 45000)
+	n := r.N(1100, 12000)
 	r.Require(int64(n)/2, n/5)
 	r.Assume("the querier applies a shard by keeping exactly the series whose full label set the ShardInfo matcher accepts (what the store API does); the engine is the Prometheus engine with 5m lookback")
 	eng := promql.NewEngine(promql.EngineOpts{MaxSamples: 50_000_000, Timeout: time.Minute, LookbackDelta: 5 * time.Minute,
